@@ -93,19 +93,32 @@ Theorem C17_timeout_refuted :
     o = OOk /\ is_prepared d = false /\ In (ROLLBACK, ROk) t.
 Proof. exact auto_local_timeout_refuted. Qed.
 
+(* the pool retiring a HELD connection touches nothing (Close keeps it for phase two), and a
+   closed session never loses a PREPARED branch: what phase two after a retirement relies on *)
+Theorem C17_retire_held : forall s c, c_kept (get_cst s c) = true ->
+  s_brs (retire_conn s c) = s_brs s /\ s_jour (retire_conn s c) = s_jour s.
+Proof. exact retire_held. Qed.
+
+Theorem C17_closed_session_keeps_prepared : forall d, is_prepared (srv_kill d) = is_prepared d.
+Proof. exact kill_keeps_prepared. Qed.
+
 (* ---- non-vacuity *)
 Definition ex_env : env :=
   {| e_detach := false;
      e_xid := fun g => bytes_of_string (if Nat.eqb g 0 then "10.0.0.7:8091:77" else "a-1");
      e_bid := fun k => 100 + N.of_nat k;
      e_refuse := fun k => Nat.eqb k 3;
-     e_fault := fun c n => match c, n with PREPARE, 1%nat => true | _, _ => false end |}.
+     e_fault := fun c n => match c, n with PREPARE, 1%nat => true | STMT, 6%nat => true | _, _ => false end;
+     e_fbad := fun c n => match c, n with STMT, 6%nat => true | _, _ => false end |}.
 Definition ex_prog : list op :=
   [OAuto 0 None false; OAuto 1 None false; OLocal; OPhase2 0 true false; OAuto 0 None false;
    OAuto 1 None false; OPhase2 4 false true;
    OAuto 1 (Some 1%nat) false;   (* the connection of the rolled-back branch, out of the pool again *)
    OAuto 0 None true;            (* branch timeout *)
-   OPhase2 7 true false].
+   OPhase2 7 true false;
+   ORetire 0;                    (* the pool retires the (held) connection of the committed branch *)
+   OAuto 0 None false;           (* its statement fails with driver.ErrBadConn ... *)
+   ORetry 0 false; ORetry 0 false  (* ... database/sql runs it again on a new connection *)].
 
 Example C17_env_nonvacuous : uniq_bid ex_env /\ no_double_end ex_env.
 Proof.
@@ -129,8 +142,14 @@ Example C17_run_nonvacuous :
   /\ (* branch timeout *)
      cmds_of (xa_id (e_xid ex_env 0) 105) (journal ex_env ex_prog)
     = [(START, ROk); (STMT, ROk); (END_, ROk); (ROLLBACK, ROk); (ROLLBACK, RNota)]
-  /\ outcomes ex_env ex_prog = [OOk; OErr; OOk; OP2 true; OOk; OErr; OP2 true; OOk; OErr; OP2 true]
-  /\ length (journal ex_env ex_prog) = 33%nat.
+  /\ (* driver.ErrBadConn at the statement: this attempt's branch is rolled back, the retry's is prepared *)
+     cmds_of (xa_id (e_xid ex_env 0) 106) (journal ex_env ex_prog)
+    = [(START, ROk); (STMT, RFault); (END_, ROk); (ROLLBACK, ROk)]
+  /\ cmds_of (xa_id (e_xid ex_env 0) 107) (journal ex_env ex_prog)
+    = [(START, ROk); (STMT, ROk); (END_, ROk); (PREPARE, ROk)]
+  /\ outcomes ex_env ex_prog = [OOk; OErr; OOk; OP2 true; OOk; OErr; OP2 true; OOk; OErr; OP2 true;
+                                OOk; OErrBad; OOk; OSkipped]
+  /\ length (journal ex_env ex_prog) = 43%nat.
 Proof. vm_compute. repeat split. Qed.
 
 Example C17_ident_nonvacuous :
